@@ -15,6 +15,7 @@ import (
 	"github.com/dgraph-io/badger"
 	"github.com/jirenius/go-res/store/badgerstore"
 	"github.com/jirenius/keylock"
+	"github.com/jirenius/taskqueue"
 
 	"verif/sim/sched"
 )
@@ -234,8 +235,10 @@ func (CrashScenario) Execute(sim *sched.Sim, ci interface{}, prop string, race b
 		return a
 	}
 	badgerstore.VerifHook = sim.Yield
+	badger.VerifHook = sim.Yield
 	keylock.Hook = sim.Yield
-	defer func() { badgerstore.VerifHook = nil; keylock.Hook = nil }()
+	taskqueue.Hook = sim.Yield
+	defer func() { badgerstore.VerifHook = nil; badger.VerifHook = nil; keylock.Hook = nil; taskqueue.Hook = nil }()
 	root := tempDBDir()
 	defer os.RemoveAll(root)
 	cr.open(filepath.Join(root, "g0"))
